@@ -46,3 +46,17 @@ M("more-reply-no-gate-check", "C03", XQ,
 M("nohostname-no-gate-check", "C03", CORE,
   "            plugin->field_change(req, IAUTH_GOT_HOSTNAME);\n    }\n    iauth_check_request(req);\n}\n\nstatic void parse_password",
   "            plugin->field_change(req, IAUTH_GOT_HOSTNAME);\n    }\n}\n\nstatic void parse_password")
+
+# ---- C04 ------------------------------------------------------------------------------------------------------
+M("validate-request-ignores-serial", "C04", CORE,
+  "    if (!req || serial != req->serial)\n        return NULL;",
+  "    if (!req)\n        return NULL;")
+M("xreply-ignores-ref-mask", "C04", XQ,
+  "        if ((cli->ref_mask & (1u << ii)) == 0)\n            continue;\n        srv = iauth_xquery_services.vec[ii];",
+  "        srv = iauth_xquery_services.vec[ii];")
+M("routing-tag-trailing-junk-accepted", "C04", CORE,
+  "    serial = strtoul(sep + 1, &sep, 16);\n    if (sep[0] != '\\0')\n        return NULL;",
+  "    serial = strtoul(sep + 1, &sep, 16);")
+M("stray-more-sets-more-mask", "C04", XQ,
+  "    /* See if this is a response from a service that we are waiting for. */",
+  "    if (reply && 0 == strncmp(reply, \"MORE \", 5)) cli->more_mask |= 1u;\n    /* See if this is a response from a service that we are waiting for. */")
